@@ -26,7 +26,7 @@ CONSTANTS Chunks,      \* set of texts a body is built from (single characters o
           PerturbChars,\* characters used for substitution / insertion in "kw" mode
           Emit         \* TRUE: print one VCASE line per finished text
 
-AllDevs == {"NoDigraphs", "NoUCNIdent", "NoUCNEscape", "NumberSignRun"}   \* those that change the token sequence
+AllDevs == {"NoDigraphs", "NoUCNIdent", "NoUCNEscape"}   \* those that change the token sequence
 
 VARIABLES body,   \* sequence of chunks chosen so far
           src,    \* the text being scanned (leader, body with variant applied, new-line)
